@@ -30,12 +30,12 @@ CLAIMS.update({
             "note": MK_NOTE + " Interleavings with concurrent readers are not explored.", "technique": TECH_FORK, "design_ref": "DESIGN.md section 4 (C01)"},
     "C02": {"text": "One inductive step of the real resolver (Schema.Parse, TargetStates, parseAdd/parseRequire/stateBlockedBy, setupAccepted) through the public "
                     "mutation API for every 2-state schema (all relation bits symbolic), curated 3-state schemas and, in the thorough tier, 128 shards of the "
-                    "3-state schema space: Require closure, no Remove conflict, Add relations honoured, every change justified. One genuine resolver defect "
-                    "is a known finding that is re-confirmed natively each run.",
+                    "3-state schema space: Require closure, no Remove conflict, Add relations honoured, every change justified. Two genuine resolver defects "
+                    "are known findings that are re-confirmed natively each run.",
             "note": MK_NOTE + " graph.TopologicalSort stubbed (order is C05's subject).", "technique": TECH_FORK, "design_ref": "DESIGN.md section 4 (C02)"},
     "C03": {"text": "All-or-nothing and truthful Result for one mutation with the real handler dispatch (processHandlers, handle, emit*Events) and a symbolic veto "
                     "table over every handler name; CanAdd/CanRemove change nothing and predict the next result; disposed / over-limit / backing-off machines cancel "
-                    "(Set ignoring Backoff is a known finding).",
+                    "(Set ignoring Backoff was repaired, fix: 432354e).",
             "note": MK_NOTE, "technique": TECH_FORK, "design_ref": "DESIGN.md section 4 (C03)"},
     "C05": {"text": "Handler lifecycle on every path of one mutation with a recording map binding: phase order, negotiation handlers see the pre-state, final "
                     "handlers see the applied target, a veto stops everything, final handlers exactly once per change, Enter/Exit order honours After/Require.",
@@ -43,7 +43,7 @@ CLAIMS.update({
             "design_ref": "DESIGN.md section 4 (C05)"},
     "C07": {"text": "Auto mutation after an accepted, state-changing mutation over every 2-state schema with Auto bits and every veto assignment: it follows "
                     "immediately, calls exactly the unblocked inactive Auto states, never chains, and every rejected Auto state is justified by its own handlers "
-                    "or relations. The partial-acceptance panic in emitExitEvents is a known finding.",
+                    "or relations. The partial-acceptance panic in emitExitEvents was repaired (fix: 5ed50fb).",
             "note": MK_NOTE + " AnyEnter pinned to no veto; health mutations outside.", "technique": TECH_FORK, "design_ref": "DESIGN.md section 4 (C07)"},
     "C14": {"text": "Tracer protocol over one drain of the queue (mutation plus auto mutation) with a recording tracer executed symbolically: Init/Start/[Finals]/End "
                     "once and in order per processed mutation, Finals iff applied, reported times equal machine times and chain, canceled ones report no change, "
@@ -52,13 +52,13 @@ CLAIMS.update({
     "C20": {"text": "Totality and algebra of the exported helpers of pkg/machine executed path by path on symbolic arguments: S.Delete/Add/Add1/Sub/Shared/Equal/"
                     "EqualOrder/Has/Index round trip, SAdd, Time and TimeIndex algebra for every index, queue queries for every Position on queues of 0..2 mutations, "
                     "ParseStates, Event.Export/Clone without a machine, copying getters, every When* with nil and live contexts. Any reachable panic is a violation; "
-                    "five genuine defects are known findings re-confirmed natively each run.",
+                    "the genuine defects found this way (S.Delete, ParseStates, IsQueued, Event.Export, WhenQuery ctx, DetachHandlers, PoolFork) were repaired (fix commits in known_findings.json).",
             "note": "Assumes documented preconditions only. pkg/helpers and pkg/integrations kernels are outside this revision's claim. Trusted: go/ssa, symgo, z3.",
             "technique": TECH_FORK, "design_ref": "DESIGN.md section 4 (C20)"},
     "C04": {"text": "A mutation (any kind, any called set) issued from inside any handler call of a running transition - alone, after a CanAdd1 check from the same handler, or "
                     "followed by an Eval whose context has already ended - is executed path by path through the real queueMutation/PrependMut/processQueue: never run nested, "
                     "gets the next queue tick, is processed after the current transition, queue empty and released when the outer call returns, WhenQueue(tick) closes once "
-                    "the tick was processed (not closing for canceled mutations is a known finding). Two goroutines: the second caller's Add/Remove/Set runs as one atomic "
+                    "the tick was processed, accepted or canceled (fix: 92435f9). Two goroutines: the second caller's Add/Remove/Set runs as one atomic "
                     "block at a symbolic statement boundary of the first caller's queueMutation/PrependMut/processQueue (source instrumented from the current tree; the "
                     "schedule is one symbolic boolean per point, z3 decides which are feasible; replayed natively by pausing the first goroutine at that statement): one "
                     "transition at a time, tick order, nothing stranded. The stranded-mutation window of processQueue was found this way and repaired (fix: cd7525f).",
@@ -68,7 +68,7 @@ CLAIMS.update({
     "C06": {"text": "No lost or spurious wake-ups for When, WhenNot, WhenTime, WhenTicks, WhenNextActive, WhenQuery, WhenQueue and NewStateCtx (incl. Multi re-activation) over two "
                     "mutations (plus auto mutations) with the subscription placed before the first transition, between its apply step and processSubscriptions (from a final "
                     "handler) or after it, with and without a cancelation context; two When/WhenNot subscriptions sharing one context on a 3-state machine; all paths of the "
-                    "real Subscriptions code. A spurious close of multi-state When on a swap is a known finding.",
+                    "real Subscriptions code. A spurious close of multi-state When on a swap was repaired (fix: ee1f908).",
             "note": MK_NOTE + " The three subscription positions are reached from the transition's own goroutine; a racing subscriber goroutine is reduced to them by the "
                     "activeStatesMx critical sections (not explored as schedules).", "technique": TECH_FORK, "design_ref": "DESIGN.md section 4 (C06)"},
     "C08": {"text": "Fault kernel: a panic at any of the first six handler calls of one mutation - on a machine without an earlier fault, or with Exception still active from a "
